@@ -1169,6 +1169,21 @@ func extractConnLegacy(repo, root string) error {
 		fmt.Fprintf(&b, "(\"%s\", %v)", api, strict)
 	}
 	b.WriteString("]\n\n")
+	// ReadBatchWith: the branch taken when the high watermark equals the fetch offset discards the message set
+	skips := false
+	ast.Inspect(connFns["ReadBatchWith"].Body, func(n ast.Node) bool {
+		if is, ok := n.(*ast.IfStmt); ok {
+			if be, ok := is.Cond.(*ast.BinaryExpr); ok && be.Op == token.EQL {
+				_, xi := be.X.(*ast.Ident)
+				_, yi := be.Y.(*ast.Ident)
+				if xi && yi && containsText(is.Body, "messageSetReader") && containsCall(is.Body, "discardN") {
+					skips = true
+				}
+			}
+		}
+		return true
+	})
+	fmt.Fprintf(&b, "/-- conn.go ReadBatchWith: at the high watermark (empty reader) the message set of the response is discarded -/\ndef fetchSkipsAtWatermark : Bool := %v\n\n", skips)
 	// which errors close the connection: `if !errors.As(err, &kafkaError) { c.conn.Close() }` in do,
 	// `if !errors.As(err, &kafkaError) && !errors.Is(err, io.ErrShortBuffer) { conn.Close() }` in Batch.close
 	fmt.Fprintf(&b, "/-- (*Conn).do / (*Batch).close close the connection exactly on errors that are not kafka errors (Batch: nor io.ErrShortBuffer) -/\ndef doClosesNonKafka : Bool := %v\ndef batchClosesNonKafka : Bool := %v\n\n",
